@@ -47,6 +47,10 @@ objBnil := {a: 1, B: m{nil}}
 objBstr := {B: m{"x"}}
 `
 
+// two 150-byte strs that differ in one character in the middle
+var longStrA = strings.Repeat("m", 75) + "A" + strings.Repeat("n", 74)
+var longStrB = strings.Repeat("m", 75) + "B" + strings.Repeat("n", 74)
+
 var poolSpecs = []poolSpec{
 	// ints
 	{"0", "int", "zero"}, {"1", "int", ""}, {"-1", "int", ""}, {"2", "int", ""}, {"-2", "int", ""}, {"7", "int", ""},
@@ -58,12 +62,13 @@ var poolSpecs = []poolSpec{
 	{"0.1", "float", ""}, {"(0.0 * -1.0)", "float", "zero negzero"}, {"0.3", "float", ""}, {"(0.1 + 0.2)", "float", ""}, {"1.0e-10", "float", ""}, {"2.0e-10", "float", ""}, {"inf", "float", "inf"}, {"-inf", "float", "inf"}, {"nan", "float", "nan"},
 	// strs
 	{`""`, "str", "zero"}, {`"a"`, "str", ""}, {`"abc"`, "str", ""}, {`"ab"`, "str", ""}, {`"b"`, "str", ""}, {`"日本語"`, "str", ""}, {`"a\nb"`, "str", ""},
-	{`"\"q\""`, "str", ""}, {`"0"`, "str", ""}, {`"len"`, "str", ""}, {`'sym`, "str", ""}, {`"1"`, "str", ""}, {`"A"`, "str", ""},
+	{`"\"q\""`, "str", ""}, {`"0"`, "str", ""}, {`"len"`, "str", ""}, {`'sym`, "str", ""}, {`"1"`, "str", ""}, {`"A"`, "str", ""}, {`/~"a"`, "str", "rawbytes"}, {`/~"b"`, "str", "rawbytes"}, {`"\xff"`, "str", "rawbytes"},
+	{`"` + longStrA + `"`, "str", "long"}, {`"` + longStrB + `"`, "str", "long"},
 	// nil, bools
 	{"nil", "nil", "zero"}, {"true", "bool", ""}, {"false", "bool", "zero"},
 	// arrs
 	{"[]", "arr", "zero"}, {"[1]", "arr", ""}, {"[1, 2, 3]", "arr", ""}, {"[[1], [2, [3]]]", "arr", ""}, {"[nil]", "arr", ""},
-	{"[1.0]", "arr", ""}, {`["a"]`, "arr", ""}, {"[true]", "arr", ""}, {"[1, 0]", "arr", ""}, {"[true, false]", "arr", ""}, {"[2, [3, true]]", "arr", ""}, {"[2, [3, 1]]", "arr", ""}, {"[nan]", "arr", "nan"}, {"[1, 2]", "arr", ""}, {"[{a: 1}]", "arr", ""},
+	{"[1.0]", "arr", ""}, {`["a"]`, "arr", ""}, {"[true]", "arr", ""}, {"[2]", "arr", ""}, {"[3]", "arr", ""}, {"[1, 0]", "arr", ""}, {"[true, false]", "arr", ""}, {"[2, [3, true]]", "arr", ""}, {"[2, [3, 1]]", "arr", ""}, {"[nan]", "arr", "nan"}, {"[1, 2]", "arr", ""}, {"[{a: 1}]", "arr", ""},
 	// objs
 	{"{}", "obj", "zero"}, {"{a: 1}", "obj", ""}, {"{_p: 1}", "obj", ""}, {"{a: {b: 2}}", "obj", ""}, {"{a: 1, b: 2}", "obj", ""},
 	{"{a: 1}.bear", "obj", "desc"}, {"{a: 1}.bear({b: 2})", "obj", "desc"}, {"{a: [1, 2]}", "obj", ""}, {"{a: 2}", "obj", ""}, {"{a: [1, 0]}", "obj", ""}, {"{a: [true, false]}", "obj", ""}, {"{a: true}", "obj", ""},
@@ -71,7 +76,7 @@ var poolSpecs = []poolSpec{
 	{"objBint", "obj", "user userB"}, {"objBnil", "obj", "user userB"}, {"objBstr", "obj", "user userB"},
 	// maps
 	{"%{}", "map", "zero"}, {"%{1: 2}", "map", ""}, {`%{"a": 1}`, "map", ""}, {"%{[1]: 2}", "map", ""}, {"%{'a: 1}", "map", ""},
-	{"%{1: 2, 3: 4}", "map", ""}, {"%{'k: [1]}", "map", ""}, {"%{'k: [true]}", "map", ""}, {"%{true: 2}", "map", ""}, {"%{3: 4, 1: 2}", "map", ""}, {"%{{a: 1}: 1}", "map", ""}, {"%{nil: nil}", "map", ""},
+	{"%{1: 2, 3: 4}", "map", ""}, {"%{[1]: 'one, [2]: 'two, [3]: 'three}", "map", ""}, {"%{{a: 1}: 1, [2]: 2}", "map", ""}, {"%{'k: [1]}", "map", ""}, {"%{'k: [true]}", "map", ""}, {"%{true: 2}", "map", ""}, {"%{3: 4, 1: 2}", "map", ""}, {"%{{a: 1}: 1}", "map", ""}, {"%{nil: nil}", "map", ""},
 	// ranges
 	{"(1:3)", "range", ""}, {"(nil:nil:-1)", "range", ""}, {"('a:'d)", "range", ""}, {"(3:1:0)", "range", ""}, {"(1:3:1)", "range", ""},
 	{"(nil:nil:nil)", "range", "zero"}, {"(1:3:nil)", "range", ""}, {"(3:1)", "range", ""}, {"(1:4:-1)", "range", ""}, {"(-1:-4)", "range", ""}, {"(5:0:2)", "range", ""},
